@@ -493,7 +493,7 @@ def mpi_from_str(s, prec):
     elif "," in s:
         if ('[' not in s) or (']' not in s):
             raise e
-        if s[0] == '[':
+        if s[0] == '[' and s[-1] == ']':
             # case 3
             s = s.replace("[", "")
             s = s.replace("]", "")
@@ -510,9 +510,11 @@ def mpi_from_str(s, prec):
             else:
                 z, e = z.rstrip(']'), ''
             lower, upper = x+y+e, x+z+e
-            # with a negative shared prefix the larger digits give the
-            # lower endpoint
-            if x.startswith('-'):
+            # the two digit groups may come in either order (with a
+            # negative shared prefix the larger digits give the lower
+            # endpoint)
+            if mpf_gt(from_str(lower, wp, round_floor),
+                      from_str(upper, wp, round_floor)):
                 lower, upper = upper, lower
             a = from_str(lower, prec, round_floor)
             b = from_str(upper, prec, round_ceiling)
